@@ -21,6 +21,7 @@ units.UNITS['Asm'] = strunits.gen_asm
 units.UNITS['Clir'] = clunits.gen_clir
 units.UNITS['JitLogic'] = clunits.gen_jitlogic
 units.UNITS['ClAlu'] = clunits.gen_clalu
+units.UNITS['ClJmp'] = clunits.gen_cljmp
 
 
 def main():
